@@ -7,11 +7,13 @@ probes what the connection may do.  Oracle: history invariants against the
 harness's ground truth of which credentials are valid for which user.
 """
 
+import os
+import time
 from typing import Any, Dict, List, Optional, Tuple
 
 from hypothesis import strategies as st
 
-from ..core import CaseResult, Family, Violation, pick
+from ..core import CaseResult, Family, HarnessError, Violation, pick
 from ..engines import memwire
 from ..engines.memwire import asyncssh
 from ..engines.refconn import RefConn
@@ -677,6 +679,77 @@ def strategy(tier: str):
         'final': final})
 
 
+# ---- OpenSSH ssh-agent as an independent holder of keys (converse family) --
+
+_AGENTS: Dict[str, str] = {}
+
+
+def agent_socket(which: str) -> Optional[str]:
+    """Socket of a per-process OpenSSH ssh-agent holding the key named
+    `which` ('user', 'other' or 'user+cert'); None when ssh-agent is not
+    installed"""
+
+    import atexit
+    import ctypes
+    import shutil
+    import signal
+    import subprocess
+    import tempfile
+
+    if which in _AGENTS:
+        return _AGENTS[which]
+
+    if not shutil.which('ssh-agent') or not shutil.which('ssh-add'):
+        return None
+
+    d = tempfile.mkdtemp(prefix='c05-agent-')
+    sock = os.path.join(d, 'agent.sock')
+
+    def pdeathsig():
+        try:
+            ctypes.CDLL('libc.so.6').prctl(1, signal.SIGTERM)
+        except OSError:
+            pass
+
+    proc = subprocess.Popen(['ssh-agent', '-D', '-a', sock],
+                            stdout=subprocess.DEVNULL,
+                            stderr=subprocess.DEVNULL, preexec_fn=pdeathsig)
+
+    def stop():
+        proc.kill()
+        shutil.rmtree(d, ignore_errors=True)
+
+    atexit.register(stop)
+
+    for _ in range(200):
+        if os.path.exists(sock):
+            break
+        time.sleep(0.01)
+    else:
+        raise HarnessError('ssh-agent did not start')
+
+    name = 'c05-user' if which.startswith('user') else 'c05-other'
+    key = memwire.key(name, 'ssh-ed25519')
+    path = os.path.join(d, 'id')
+    key.write_private_key(path)
+    os.chmod(path, 0o600)
+
+    if which == 'user+cert':
+        ca = memwire.key('c05-ca', 'ssh-ed25519')
+        cert = ca.generate_user_certificate(key, 'kid', principals=['alice'])
+        cert.write_certificate(path + '-cert.pub')
+
+    r = subprocess.run(['ssh-add', path], env={'SSH_AUTH_SOCK': sock,
+                                               'PATH': os.environ['PATH']},
+                       capture_output=True, text=True)
+
+    if r.returncode:
+        raise HarnessError('ssh-add failed: ' + r.stderr)
+
+    _AGENTS[which] = sock
+    return sock
+
+
 def run_converse(case) -> CaseResult:
     """Converse clause: an asyncssh CLIENT presenting a valid credential
     (password, keyboard-interactive, local key, certificate) is admitted; an
@@ -743,6 +816,21 @@ def run_converse(case) -> CaseResult:
 
         copts['client_factory'] = Client
         expect = case['valid'] and case['user'] in KBD
+    elif cred == 'agent':
+        # the key never leaves the OpenSSH agent: asyncssh lists the agent's
+        # identities and asks it to sign
+        sock = agent_socket('user' if case['valid'] else 'other')
+
+        if sock is None:
+            return CaseResult(['no-ssh-agent'], False)
+
+        copts['agent_path'] = sock
+        # (client_keys=None would switch the agent off as well; an empty
+        # list means "no explicit keys": agent, then default key files)
+        copts['client_keys'] = []
+        expect = case['valid'] and case['user'] == 'alice' and from_ok and \
+            key_listed
+        restr = opts if expect else {}
     elif cred == 'key':
         copts['client_keys'] = [ukey if case['valid'] else okey]
         expect = case['valid'] and case['user'] == 'alice' and from_ok and \
@@ -792,6 +880,19 @@ def run_converse(case) -> CaseResult:
             h.pump_until(pair.copts.waiter.done)
             if pair.copts.waiter.done():
                 break
+            if cred == 'agent':
+                # the agent answers over a real socket from another process:
+                # the in-memory wire is quiescent meanwhile
+                deadline = time.perf_counter() + 10
+
+                while not pair.copts.waiter.done() and \
+                        time.perf_counter() < deadline and not h.ready() and \
+                        not any(h.wire.q.values()):
+                    h.step()
+                    time.sleep(0.0005)
+
+                if h.ready() or any(h.wire.q.values()):
+                    continue
             if not gate.release(0):
                 break
         h.pump()
@@ -819,6 +920,8 @@ def run_converse(case) -> CaseResult:
             return CaseResult(sorted(labels), True)
 
         labels.add('admitted')
+        if cred == 'agent':
+            labels.add('via-agent')
         user = pair.s.get_extra_info('username')
 
         if user != case['user']:
@@ -872,7 +975,8 @@ def run_converse(case) -> CaseResult:
 
 def converse_strategy(tier: str):
     return st.fixed_dictionaries({
-        'cred': pick(['password', 'kbdint', 'key', 'key', 'cert', 'cert']),
+        'cred': pick(['password', 'kbdint', 'key', 'key', 'cert', 'cert',
+                      'agent']),
         'valid': pick([True, True, False]),
         'user': pick(['alice', 'alice', 'alice', 'bob', 'eve']),
         'opts': pick(range(len(OPTION_SETS))),
@@ -948,7 +1052,8 @@ FAMILIES = [
     Family('converse', run_converse, strategy=converse_strategy,
            budget={'quick': 800, 'thorough': 8000},
            required={'all': ['cred:password', 'cred:kbdint', 'cred:key',
-                             'cred:cert', 'admitted', 'refused', 'via-cert',
+                             'cred:cert', 'cred:agent', 'admitted', 'refused',
+                             'via-cert', 'via-agent',
                              'session-opened', 'cert-princ:empty',
                              'cert-refused-by-principals',
                              'ca-line:plain']},
